@@ -160,5 +160,6 @@ theorem stepSetOp_ok (hF : F.Pure) {prof : Profile} {cap : Nat} {l : List (K × 
   | drop => exact Ret.bind (dropAndRenew_ret F hc) (fun s1 hc1 => Ret.pure hc1)
   | forget => exact Ret.bind (forgetMap_ret hc) (fun s1 hc1 => Ret.pure hc1)
   | serde dst => exact ⟨s, rfl, hc⟩
+  | extend_from o => exact ⟨s, rfl, hc⟩
 
 end Micromap.ListSys
